@@ -38,6 +38,15 @@ Proof.
   destruct (Qcompare _ _); [destruct (Z.even _)| |]; try rewrite inject_Z_succ; lra.
 Qed.
 
+Lemma Qround_comp : forall x y, x == y -> Qround x == Qround y.
+Proof.
+  intros x y H. unfold Qround, Qround_half_even.
+  rewrite (Qfloor_comp x y H).
+  assert (E : Qcompare (x - inject_Z (Qfloor y)) (1 # 2) = Qcompare (y - inject_Z (Qfloor y)) (1 # 2))
+    by (rewrite H; reflexivity).
+  rewrite E. reflexivity.
+Qed.
+
 (* rounding an integer is the identity *)
 Lemma Qround_inject_Z : forall z, Qround (inject_Z z) == inject_Z z.
 Proof.
